@@ -103,17 +103,9 @@ def x_resolved(self, st, r, name):
         try:
             v = self.ix.fold(r[2], r[1])
         except NotConst:
-            if getattr(self, "fold_regex", False) and isinstance(r[2], ast.Call) and not r[2].keywords:
-                # NAME = re.compile(<constants>) at module level
-                fn = self.ix.resolve_expr(r[1], r[2].func)
-                if isinstance(fn, tuple) and fn[0] == "ext" and fn[1] in ("re.compile",):
-                    try:
-                        cargs = [self.ix.fold(a, r[1]) for a in r[2].args]
-                        rv = _abscall.fold_regex_call(self, "re.compile", cargs, {})
-                        if rv is not KeyError:
-                            return rv
-                    except NotConst:
-                        pass
+            rv = _abscall.fold_regex_const(self, r[2], r[1])
+            if rv is not KeyError:
+                return rv
             return Top("global:" + name)
         return self.x_lift(st, v)
     raise U(self)("resolved %r" % (r,))
@@ -711,6 +703,9 @@ def get_attr(self, st, base, attr, node, default=KeyError):
                 try:
                     return [(st, "val", self.x_lift(st, self.ix.fold(lc[1], lc[0].module)))]
                 except NotConst:
+                    rv = _abscall.fold_regex_const(self, lc[1], lc[0].module)
+                    if rv is not KeyError:
+                        return [(st, "val", rv)]
                     return [(st, "val", Top("classconst:" + attr))]
             if hook is not None:
                 return hook(self, st, [base, attr, default], {}, node)
@@ -799,6 +794,9 @@ def get_attr(self, st, base, attr, node, default=KeyError):
                 try:
                     return [(st, "val", self.x_lift(st, self.ix.fold(lc[1], lc[0].module)))]
                 except NotConst:
+                    rv = _abscall.fold_regex_const(self, lc[1], lc[0].module)
+                    if rv is not KeyError:
+                        return [(st, "val", rv)]
                     return [(st, "val", Top("classconst:" + attr))]
             if attr == "__members__" and ci.is_enum:
                 return [(st, "val", st.alloc(HObj("dict", kind="dict", items=[
